@@ -16,6 +16,7 @@ static double now_wall()
 	return ts.tv_sec + ts.tv_nsec / 1e9;
 }
 
+int golden_make(const std::string& outdir, int count, const std::string& ref_commit, const std::string& shm);
 static std::string g_verif = "/verif";
 static std::string g_out = "/verif"; // where evidence and replay files go (SNAPSIM_OUT for trial runs against seeded patches)
 static std::string g_shm;
@@ -611,6 +612,7 @@ int main(int argc, char** argv)
 	else if (args.size() >= 3 && args[0] == "run") rc = do_run(args[1], strtoull(args[2].c_str(), 0, 10), tier, seed, flag("-v"));
 	else if (args.size() >= 5 && args[0] == "seq") rc = do_seq(args[1], strtoull(args[2].c_str(), 0, 10), strtoull(args[3].c_str(), 0, 10), strtoull(args[4].c_str(), 0, 10), tier, seed);
 	else if (args.size() >= 1 && args[0] == "selfcheck") rc = do_selfcheck(atoi(opt("--n", "400").c_str()), jobs, seed);
+	else if (args.size() >= 4 && args[0] == "mkgolden") rc = golden_make(args[1], atoi(args[2].c_str()), args[3], g_shm);
 	else if (args.size() >= 1 && args[0] == "list") { for (auto& f : families()) printf("%s %s\n", f.name.c_str(), f.prop.c_str()); rc = 0; }
 	else fprintf(stderr, "usage: snapsim check <prop> [--tier t] [--seed n] [--jobs n] [--runs n] [--family f] | replay <file> | run <family> <index> [-v] | selfcheck | list\n");
 	cleanup_shm();
